@@ -1,7 +1,7 @@
 (* C11 -- source map and listings are exact.
    Model: model/SourceMap.v (source_map.rs + the used part of code_map.rs), model/Listing.v (listing.rs to_listing),
    model/Emit.v (Segment::emit + CodegenContext::emit + macro re-attribution).  Spec: spec/ListingSpec.v. *)
-From Coq Require Import List NArith ZArith Bool Permutation.
+From Coq Require Import List NArith ZArith Bool Permutation Lia.
 Import ListNotations.
 From Mos Require Import model.SourceMap model.Listing spec.ListingSpec proofs.ListingProofs.
 Open Scope Z_scope.
@@ -71,11 +71,14 @@ Definition ex_es : list (offset * list N) :=
    (mkOffset 0 (mkSpan 0 4 6) 32769 32770 7, [96]%N);
    (mkOffset 0 (mkSpan 0 4 6) 4097 4098 8, [238]%N)].
 
+Ltac entry seg := split; [reflexivity|intros _; exists seg; split; [reflexivity|split; [cbn; lia|split; [cbn; lia|reflexivity]]]].
 Example C11_example_wf : wf_emission ex_segs ex_es /\ spans_ok [ex_file] ex_es.
 Proof.
   split.
-  - repeat constructor; cbn; intros _; eexists; (split; [reflexivity|]); cbn; repeat split; try discriminate; reflexivity.
-  - repeat constructor; exists ex_file; cbn; repeat split; discriminate.
+  - constructor; [entry (mkLseg 4096 4098 [234;96]%N 28672)|].
+    constructor; [entry (mkLseg 4096 4098 [234;96]%N 28672)|].
+    constructor; [entry (mkLseg 4097 4098 [238]%N 0)|constructor].
+  - repeat (constructor; [exists ex_file; split; [reflexivity|cbn; lia]|]). constructor.
 Qed.
 
 (* F-C11a: the relocated segment's bytes are listed at their target addresses; F-C11b: the overlapping segment lists its
